@@ -421,6 +421,58 @@ def translate(repo, out_path):
                   % (fn.lineno, fn.end_lineno, body))
     sources.append((rel3, 'SLE._update_solubility', seg))
 
+    # 5. the cache key of GroupActivityCoefficients.__new__ (thermo.Gamma(chemicals) as used by LLE and SLE)
+    rel4 = 'thermosteam/equilibrium/activity_coefficients.py'
+    path, fn, seg = load(repo, rel4, 'GroupActivityCoefficients.__new__')
+    if params(fn) != ['cls', 'chemicals']:
+        raise TranslatorError(f'{rel4}:{fn.lineno}: unexpected signature {params(fn)}')
+    def bad(node, why):
+        raise TranslatorError(f'{rel4}:{getattr(node, "lineno", fn.lineno)}: GroupActivityCoefficients.__new__: {why}')
+    def is_cached(e):
+        return isinstance(e, ast.Attribute) and e.attr == '_cached' and isinstance(e.value, ast.Name) and e.value.id in ('cls', 'self')
+    kinds = {}                                   # name -> 'T' (ordered tuple of the argument) | 'S' (set of the argument)
+    lookup = store = order = None
+    for st in fn.body:
+        if isinstance(st, ast.Assign) and len(st.targets) == 1 and isinstance(st.targets[0], ast.Name) \
+                and isinstance(st.value, ast.Call) and isinstance(st.value.func, ast.Name) and len(st.value.args) == 1 \
+                and isinstance(st.value.args[0], ast.Name) and not st.value.keywords:
+            fname, arg = st.value.func.id, st.value.args[0].id
+            src = 'T' if arg == 'chemicals' and 'chemicals' not in kinds else kinds.get(arg)
+            if fname in ('tuple', 'list') and src == 'T': kinds[st.targets[0].id] = 'T'
+            elif fname in ('frozenset', 'set') and src in ('T', 'S'): kinds[st.targets[0].id] = 'S'
+            elif st.targets[0].id in ('chemicals',) or is_cached(st.value): bad(st, f'unsupported key construction {ast.unparse(st)}')
+        if isinstance(st, ast.If) and isinstance(st.test, ast.Compare) and len(st.test.ops) == 1 and isinstance(st.test.ops[0], ast.In) \
+                and is_cached(st.test.comparators[0]):
+            if lookup is not None: bad(st, 'more than one cache lookup')
+            k = st.test.left
+            ret = st.body[0] if st.body else None
+            if not (isinstance(k, ast.Name) and isinstance(ret, ast.Return) and isinstance(ret.value, ast.Subscript)
+                    and is_cached(ret.value.value) and isinstance(ret.value.slice, ast.Name) and ret.value.slice.id == k.id):
+                bad(st, f'unsupported cache lookup {ast.unparse(st.test)}')
+            lookup = k.id
+        if isinstance(st, ast.Assign) and len(st.targets) == 1 and isinstance(st.targets[0], ast.Subscript) and is_cached(st.targets[0].value):
+            if not (isinstance(st.targets[0].slice, ast.Name) and isinstance(st.value, ast.Name) and st.value.id == 'self'):
+                bad(st, f'unsupported cache store {ast.unparse(st)}')
+            store = st.targets[0].slice.id
+        if isinstance(st, ast.Assign) and len(st.targets) == 1 and ast.unparse(st.targets[0]) == 'self._chemicals':
+            if not isinstance(st.value, ast.Name): bad(st, 'unsupported _chemicals assignment')
+            order = st.value.id
+    if lookup is None or store is None or order is None:
+        bad(fn, 'cache lookup / store / _chemicals assignment not found')
+    if lookup != store: bad(fn, f'lookup key {lookup} and store key {store} differ')
+    if kinds.get(order) != 'T': bad(fn, f'_chemicals is not the ordered tuple of the argument')
+    if kinds.get(lookup) == 'T':
+        keydef = 'list_eqb Nat.eqb a b'
+    elif kinds.get(lookup) == 'S':
+        keydef = 'forallb (fun x_ => existsb (Nat.eqb x_) b) a && forallb (fun x_ => existsb (Nat.eqb x_) a) b'
+    else:
+        bad(fn, f'cache key {lookup} of unknown construction')
+    pieces.append('(* activity_coefficients.py: GroupActivityCoefficients.__new__ (lines %d-%d): equality of the class-level cache key\n'
+                  '   (%s of the chemicals); the object found is returned as it is, built for the order of its first request *)\n'
+                  'Definition gamma_key_eqb (a b : list nat) : bool :=\n  %s.\n'
+                  % (fn.lineno, fn.end_lineno, 'tuple' if kinds[lookup] == 'T' else 'frozenset', keydef))
+    sources.append((rel4, 'GroupActivityCoefficients.__new__', seg))
+
     h = hashlib.sha256('\n'.join(s for _, _, s in sources).encode()).hexdigest()
     text = ('(* GENERATED by tr/C15_kernels.py -- do not edit.  Source sha256 %s\n   functions: %s *)\n'
             'From V Require Export C15.Base.\nOpen Scope Q_scope.\n\n' % (h, ', '.join(f'{r}:{n}' for r, n, _ in sources))
